@@ -122,11 +122,13 @@ theorem aux_run_length (t : Term) (ins : List TickIn) : (run t ins).length = ins
   | const l => cases ins <;> simp [run, firstTickOnly]
   | map f t ih | filter p t ih | flatMap g t ih | filterMap h t ih | smap f t ih | sfilter p t ih =>
     simp [run, ih]
-  | enumerate t ih | scan i f t ih | unique t ih | kscan i f t ih =>
+  | enumerate t ih | scan i f t ih | unique t ih | kscan i f t ih | kgen i g t ih =>
     simp [run, aux_mealyStatic_length, ih]
+  | entries t ih => simp [run, ih]
   | union a b iha ihb | chain a b iha ihb => simp [run, iha, ihb]
-  | join a b iha ihb => simp [run, aux_joinDeltaRun_length _ _ _ _ (iha.trans ihb.symm), iha]
-  | fold c i f t ih | reduce f t ih | kfold i f t ih => simp [run, aux_accStatic_length, ih]
+  | join a b iha ihb | joinLB a b iha ihb => simp [run, aux_joinDeltaRun_length _ _ _ _ (iha.trans ihb.symm), iha]
+  | fold c i f t ih | reduce f t ih | kfold i f t ih | kreduce f t ih | kfoldN i f t ih | kreduceN f t ih =>
+    simp [run, aux_accStatic_length, ih]
   | foldB i f t ih => simp [run, aux_foldNoReplayRun_length, ih]
   | crossSingleton t s iht ihs =>
     simp [run, aux_crossSingletonStaticRun_length _ _ _ (iht.trans ihs.symm), iht]
